@@ -25,6 +25,8 @@ open SamVerif.Useful
 #print axioms checker_iflet_decided
 #print axioms replayed_match_exact
 #print axioms replayed_iflet_exact
+#print axioms static_function_scope
+#print axioms method_scope
 #print axioms variant_pattern_compositional
 #print axioms tuple_pattern_compositional
 #print axioms object_pattern_columns
